@@ -88,6 +88,18 @@ def gen_case(fmt):
     def build(draw):
         git = fmt == "git"
         lay = draw(_layout())
+        # one case in five: two sibling directories, one name a string prefix
+        # of the other, both with contents and both named (walking "the
+        # minimal parents" must not take the second for a child of the first)
+        twins = []
+        if draw(st.integers(0, 4)) == 0:
+            for n in ("a", "ab"):
+                if lay.get(n) != "directory":
+                    lay[n] = "directory"
+                if not any(inside(n, q) and q != n for q in lay):
+                    lay[join(n, draw(st.sampled_from(["k", "b", "e"])))] = \
+                        "file"
+            twins = ["a", "ab"]
         dirs = sorted(p for p, k in lay.items() if k == "directory")
         nested = []
         if dirs and draw(st.integers(0, 9)) < 3:
@@ -122,6 +134,8 @@ def gen_case(fmt):
         if cands and draw(st.integers(0, 9)) < 8:
             named = draw(st.lists(st.sampled_from(cands), min_size=1,
                                   max_size=3, unique=True))
+        if twins and not any(t in nested or in_nested(t) for t in twins):
+            named = twins + [n for n in named if n not in twins][:1]
         if not git and draw(st.sampled_from([False] * 24 + [True])):
             named = named + [".bzr"]
         return {"fmt": fmt, "layout": sorted(lay.items()),
